@@ -121,6 +121,8 @@ def _py_to_xo_names(xostruct, xoname, value):
     holds the python names of its fields: the nested struct wants xo names"""
     if isinstance(value, dict) and hasattr(xostruct, xoname):
         ftype = getattr(xostruct, xoname).ftype
+        if isinstance(ftype, Ref):  # the dictionary describes the target
+            ftype = ftype._reftype
         dressing = getattr(ftype, "_DressingClass", None)
         if dressing is not None:
             inv = dressing._inverse_rename
